@@ -1,8 +1,8 @@
 (* The entry point that is extracted and evaluated by vm_compute: one line in, one line out.
-   The first element of a line may name the kind of case: (heap) (skel) (lit); otherwise
+   The first element of a line may name the kind of case: (heap) (skel) (lit) (gennames); otherwise
    the line is a file history (Model/Exec.v). *)
 From Jen Require Export Model.Exec.
-From Jen Require Import Model.HeapExec Model.SkelExec Model.LitExec.
+From Jen Require Import Model.HeapExec Model.SkelExec Model.LitExec Model.GennamesExec.
 
 Definition dispatch (ops : list sexp) : option (list str) :=
   match ops with
@@ -10,6 +10,7 @@ Definition dispatch (ops : list sexp) : option (list str) :=
     if str_eqb k (S "heap") then run_heap_case rest
     else if str_eqb k (S "skel") then run_skel_case rest
     else if str_eqb k (S "lit") then run_lit_case rest
+    else if str_eqb k (S "gennames") then run_gennames_case rest
     else None
   | _ => run_file_case ops
   end.
